@@ -7,6 +7,7 @@ reach the L1 `step` as `action.map Int.ofNat`.  The running example has 5 nodes 
 is a utility node, agent 0 owns {0,1}, agent 1 owns {3,4}.
 -/
 import JumanjiModel.Env.MMST.Lemmas
+import JumanjiModel.Env.MMST.Bounds
 open Jm MMST
 
 namespace Props.MMSTEx
@@ -190,3 +191,37 @@ theorem mmst_obs_copied (cfg : Cfg) (s : State) :
 example : (observe MMSTEx.cfg MMSTEx.st1).nodeTypes = [0, 0, 2, 2, 3] ∧ observeL1 MMSTEx.cfg MMSTEx.st1 = observe MMSTEx.cfg MMSTEx.st1 := by
   decide +kernel
 end Props.C12
+
+namespace Props.C01
+/-- the bounds invariant `BInv` (one position per agent, each in `[0, N)`; edge-table entries in `[-1, N)`;
+0/1 adjacency matrix) follows from `Feasible` plus the generator certificate "adjacency matrix is 0/1" … -/
+theorem mmst_binv_of_feasible (cfg : Cfg) (s : State) (hF : Feasible cfg s) (hb : certBinary s = true) :
+    BInv cfg s := MMST.binv_of_feasible hF hb
+
+/-- … and is preserved by every step: any joint action (in-spec or not), any draw (valid permutation or not) -/
+theorem mmst_step_binv (cfg : Cfg) (s : State) (h : BInv cfg s) (a : List Int) (p : List Nat) :
+    BInv cfg (step cfg s a p).1 := MMST.step_binv h a p
+
+/-- reset: the observation of a generated state (`_state_to_observation`; step count 0) has every leaf inside its
+interval of `obsBounds cfg`: `node_types ∈ [-1, 2A-1]`, `adj_matrix ∈ [0, 1]`, `positions ∈ [0, N-1]` (declared:
+`[-1, N-1]`), `step_count ∈ [0, time_limit]`, `action_mask ∈ [0, 1]` -/
+theorem mmst_reset_obs_in_bounds (cfg : Cfg) (s : State) (hA : 0 < cfg.numAgents) (h : BInv cfg s)
+    (hs : s.stepCount = 0) : ObsInBounds (obsBounds cfg) (observeL1 cfg s) :=
+  MMST.reset_obs_in_bounds cfg s hA h hs
+
+/-- step: from every state with the invariant whose step count lies in `[0, time_limit)` (the step that reaches
+`time_limit` included), for every joint action and every draw, every leaf of the observation is inside its
+interval of `obsBounds cfg` -/
+theorem mmst_step_obs_in_bounds (cfg : Cfg) (s : State) (a : List Int) (p : List Nat) (hA : 0 < cfg.numAgents)
+    (h : BInv cfg s) (h0 : 0 ≤ s.stepCount) (hT : s.stepCount < (cfg.timeLimit : Int)) :
+    ObsInBounds (obsBounds cfg) (step cfg s a p).2.obs := MMST.step_obs_in_bounds cfg s a p hA h h0 hT
+
+/-- the bounds list covers every leaf of the observation -/
+theorem mmst_obs_bounds_cover (cfg : Cfg) (o : Obs) :
+    (obsLeaves o).map (·.1) = (obsBounds cfg).map (·.1) := MMST.obsBounds_cover cfg o
+
+example : BInv Props.MMSTEx.cfg Props.MMSTEx.st ∧ BInv Props.MMSTEx.cfg Props.MMSTEx.st1 ∧
+    Feasible Props.MMSTEx.cfg Props.MMSTEx.st ∧ certBinary Props.MMSTEx.st = true := by decide +kernel
+/-- the upper bound of `node_types` is attained (an unconnected node of the last agent shows `2·1 + 1 = 3 = 2A - 1`) -/
+example : (observeL1 Props.MMSTEx.cfg Props.MMSTEx.st).nodeTypes = [0, 1, -1, 2, 3] := by decide +kernel
+end Props.C01
